@@ -88,6 +88,10 @@ def gen_case(rng, wd, job_exe):
     c["shell"] = rng.choice(["/bin/sh", "/bin/sh", "/bin/bash", "/bin/dash"])
     if not os.path.exists(c["shell"]):
         c["shell"] = "/bin/sh"
+    # a shell that is not there: the job cannot be started, and nothing may say that it ran
+    c["noshell"] = rng.random() < 0.04
+    if c["noshell"]:
+        c["shell"] = "/nonexistent/sh"
     c["umask"] = rng.choice([0o22, 0o27, 0o77, 0o0, 0o66, 0o137, 0o777, 0o776, 0o700, 0o1, rng.randint(0, 0o777)])
     c["norun"] = rng.random() < 0.08
     # the files may be there already, from an earlier and more talkative run
@@ -186,6 +190,10 @@ def run_case(root, part, rng, stored=None):
             fail("executor-hangs", "echsx does not finish within 60 s")
         elif "AddressSanitizer" in r.stderr or "runtime error" in r.stderr or r.rc < 0:
             fail("executor-crash", "echsx dies: %s" % r.stderr[-300:])
+        elif c.get("noshell") and not c["norun"]:
+            part.count("jobs_that_cannot_be_started")
+            if echsx.jfield(r.journal, "X-EXIT-STATUS") == "0" or (r.mail and "X-Exit-Status: 0" in r.mail):
+                fail("unstartable-job-reported-as-run", "the shell %s does not exist, yet the run is reported with exit status 0" % c["shell"])
         else:
             mail_wanted = c["org"] and c["att"] and (c["mailout"] or c["mailerr"] or c["mailrun"] or c["norun"])
             if c["norun"]:
